@@ -319,8 +319,8 @@ func c02Trusted(c *Ctx, openers []CallSite) {
 				instrs(g, func(in2 ssa.Instruction) {
 					if s2, ok := in2.(*ssa.Store); ok {
 						if _, ok := Match(Field("StorageReadOpener", Is(b["ls"])), c.E(s2.Addr)); ok {
-							if mc, ok := unwrapV(s2.Val).(*ssa.MakeClosure); ok {
-								opener = mc.Fn.(*ssa.Function)
+							if t := funcValueTarget(s2.Val); t != nil {
+								opener = t // a literal, a named function or a method value
 							}
 						}
 					}
